@@ -1,5 +1,5 @@
 """Property -> rules registry."""
-from .rules import kernel, incr, rot, sched, meas, integrator, kal, purity, diff, sensor, layout, geo, errmodel
+from .rules import kernel, incr, rot, sched, meas, integrator, kal, purity, diff, sensor, layout, geo, errmodel, frames, simrules
 
 PROPS = {
     'C01': dict(
@@ -200,6 +200,19 @@ PROPS = {
         undecided=['that every block equals the measured sensitivity of the integrator (signs and '
                    'dimensionless factors with consistent units, e.g. 2*Omega+rho vs Omega+rho)',
                    'size of the neglected terms', 'accuracy of the trapezoidal propagation']),
+    'C03': dict(
+        rules=[frames.frame_suffix, simrules.sim_inc, simrules.sim_struct, simrules.sim_kin],
+        decided=['rate-type readings satisfy the navigation equations assembled from earth.* for an '
+                 'arbitrary smooth trajectory (symbolic, splines idealised as exact derivatives; '
+                 'position and position+velocity forms); a body at rest senses exactly Earth rate '
+                 'and the reaction to gravity',
+                 'closed-form increment readings equal the integrals of the second-order '
+                 'rotation-vector kinematics of the spline polynomials (every coefficient)',
+                 'frame / transposition discipline of every product (naming convention)',
+                 'spline-coefficient roles, first-sample duplication, documented tables'],
+        undecided=['spline interpolation error and its decay with the sampling interval',
+                   'the initial-position+velocity form (numerical integration of the velocity)',
+                   'numerical reproduction of the trajectory by strapdown integration']),
 }
 
 
